@@ -49,6 +49,10 @@ ReadSeq(ref) ==
       [] ref.kind = "relps"    -> << IntC(ref.i), Txn("GroupIndex"), Op("+"), Gtxns(ref.f) >>
       [] ref.kind = "relm"     -> << Txn("GroupIndex"), IntC(ref.i), Op("-"), Gtxns(ref.f) >>
       [] ref.kind = "relms"    -> << IntC(ref.i), Txn("GroupIndex"), Op("-"), Gtxns(ref.f) >>
+      \* the index travels through a swap: Gtxn[ref.i] is read, the other swapped value (another constant /
+      \* GroupIndex + 1) is a decoy that stays below and is popped afterwards
+      [] ref.kind = "swabs"    -> << IntC(ref.i), IntC((ref.i + 1) % 3), Op("swap"), Gtxns(ref.f), Op("swap"), Op("pop") >>
+      [] ref.kind = "swrel"    -> << IntC(ref.i), Txn("GroupIndex"), IntC(1), Op("+"), Op("swap"), Gtxns(ref.f), Op("swap"), Op("pop") >>
 
 R(kind, f, i) == [kind |-> kind, f |-> f, i |-> i]
 
@@ -95,7 +99,7 @@ FailTail(cons, region) == IF cons = "bz_fail" THEN << Lab("fail_" \o region), Op
 (* Skeletons.  K1 / K2 are statement sequences (already consumed checks), *)
 (* T1/T2 the fail tails for the main region / subroutine regions.          *)
 (* Each returns the program body after the pragma.                         *)
-NSkel == 28
+NSkel == 30
 Skel(j, K1, K2, Tm, Ts) ==
     CASE j = 1  -> K1 \o Approve \o Tm                                            \* straight line
       [] j = 2  -> K1 \o FreeCond(1) \o << Bz("else") >> \o Filler \o << B("join"), Lab("else") >> \o Filler
@@ -146,8 +150,15 @@ Skel(j, K1, K2, Tm, Ts) ==
       [] j = 28 -> << Callsub("sa") >> \o Approve \o Tm \o << Lab("sa"), Callsub("sb") >> \o K1 \o << Op("retsub"), Lab("sb") >>
                    \o FreeCond(2) \o << Bz("sr") >> \o Approve \o << Lab("sr"), Op("retsub") >> \o Ts
                                                                                   \* the same one level down: check after the inner call
+      [] j = 29 -> << Callsub("sa") >> \o K1 \o Approve \o Tm
+                   \o << Lab("sa"), Callsub("sb"), Op("retsub"), Lab("sb"), Callsub("sc"), Op("retsub"), Lab("sc") >>
+                   \o FreeCond(2) \o << Bz("sr") >> \o Approve \o << Lab("sr"), Op("retsub") >>
+                                                                                  \* three levels: the innermost callee approves internally
+      [] j = 30 -> FreeCond(1) \o << Bnz("second"), Callsub("sa") >> \o K1 \o Approve \o << Lab("second"), Callsub("sa") >> \o Approve \o Tm
+                   \o << Lab("sa"), Callsub("sb"), Op("retsub"), Lab("sb"), Op("retsub") >>
+                                                                                  \* shared nested callee, two call sites: checked after the first, not after the second
 
-SkelUsesSub(j) == j \in {10, 11, 12, 13, 14, 15, 16, 17, 18, 20, 21, 23, 24, 25, 26, 27, 28}
+SkelUsesSub(j) == j \in {10, 11, 12, 13, 14, 15, 16, 17, 18, 20, 21, 23, 24, 25, 26, 27, 28, 29, 30}
 SkelUsesK2(j)  == j \in {4, 19, 20, 21}
 (* region in which hole 1 / hole 2 sits (for region-local fail labels)     *)
 Hole1Region(j) == IF j \in {10, 11, 12, 17, 18, 21, 24, 25, 26, 28} THEN "s" ELSE "m"
@@ -201,7 +212,7 @@ F1SentinelDigits ==
 
 -----------------------------------------------------------------------------
 (* Family f2: two checks, joined in one block by && / || or placed in two holes *)
-F2Joins == << "and", "or", "seq", "holes", "or_then" >>
+F2Joins == << "and", "or", "seq", "holes", "or_then", "implies" >>
 F2Pairs == << << R("txn", "RekeyTo", 0), R("txn", "Fee", 0) >>,
               << R("txn", "TypeEnum", 0), R("txn", "CloseRemainderTo", 0) >>,
               << R("txn", "TypeEnum", 0), R("txn", "AssetCloseTo", 0) >>,
@@ -231,14 +242,19 @@ F2Case(fam, k, d) ==
         \* or_then: `A || B` asserted, then a free choice depending on A alone (both arms continue)
         orThen(sfx, r) == Consume(CondSeq(cmpA) \o CondSeq(cmpB) \o << Op("||") >>, "assert", sfx, r)
                           \o CondSeq(cmpA) \o << Bnz("ot" \o sfx) >> \o Filler \o << Lab("ot" \o sfx) >>
+        \* implies: `if A then assert B` as a branch - the block before the branch constrains nothing, each arm one field
+        implies(sfx, r) == CondSeq(cmpA) \o << Bnz("im" \o sfx), B("ia" \o sfx), Lab("im" \o sfx) >>
+                           \o Consume(CondSeq(cmpB), "assert", sfx, r) \o << Lab("ia" \o sfx) >>
         K1   == CASE join \in {"and", "or"} -> Consume(both, cons, "a", r1)
                   [] join = "seq"   -> Stmt(cmpA, cons, "a", r1) \o Stmt(cmpB, cons, "c", r1)
                   [] join = "holes" -> Stmt(cmpA, cons, "a", r1)
                   [] join = "or_then" -> orThen("a", r1)
+                  [] join = "implies" -> implies("a", r1)
         K2   == CASE join \in {"and", "or"} -> Consume(both, cons, "b", r2)
                   [] join = "seq"   -> Stmt(cmpA, cons, "b", r2) \o Stmt(cmpB, cons, "d", r2)
                   [] join = "holes" -> Stmt(cmpB, cons, "b", r2)
                   [] join = "or_then" -> orThen("b", r2)
+                  [] join = "implies" -> implies("b", r2)
         tm   == IF r1 = "m" \/ (SkelUsesK2(j) /\ r2 = "m") THEN FailTail(cons, "m") ELSE << >>
         ts   == IF r1 = "s" \/ (SkelUsesK2(j) /\ r2 = "s") THEN FailTail(cons, "s") ELSE << >>
         app  == d[12] = 1
@@ -252,18 +268,22 @@ F2Case(fam, k, d) ==
                    join |-> join, neg |-> d[9], cons |-> cons, skel |-> j, app |-> app, ver |-> ver],
          prog |-> << Pragma(ver) >> \o body]
 
-F2Radix == << 12, 6, 2, 6, 6, 2, 6, 5, 2, 6, NSkel, 2 >>
+F2Radix == << 12, 6, 2, 6, 6, 2, 6, 6, 2, 6, NSkel, 2 >>
 F2Random(k) == F2Case("f2", k, [i \in 1..Len(F2Radix) |-> Rnd(k, 2, i, F2Radix[i])])
 F2SentinelDigits ==
     { << p, 0, 0, 0, 0, 0, 0, jn, n, 0, 0, 0 >> : p \in 0..11, jn \in 0..2, n \in 0..1 }
     \cup { << p, 0, 0, 1, 0, 0, 3, 4, 0, 0, j, 0 >> : p \in {3, 8, 9, 11}, j \in {0, 1} }   \* or_then on one field, two literals
     \cup { << 5, 4, 0, 1, 3, 0, 2, jn, 0, 0, 0, 0 >> : jn \in 0..2 }   \* Fee > 1000 && Fee <= 272000
+    \* implies (if OnCompletion == Update then Sender == A1, if TypeEnum == pay then CloseRemainderTo == zero, ...) in the
+    \* straight line, after a call, and after the first of two call sites of a shared nested callee
+    \cup { << p, 0, 0, 0, 0, 0, c2, 5, 0, 0, j, 0 >> : p \in {1, 2, 3}, c2 \in {0, 1}, j \in {0, 12, 29} }
 
 -----------------------------------------------------------------------------
 (* Family f3: reads of other group members, with size / index checks *)
 F3Fields == << "RekeyTo", "Fee", "TypeEnum", "CloseRemainderTo", "OnCompletion", "Sender", "AssetCloseTo" >>
-F3Kinds  == << "gtxn", "gtxns", "self", "relp", "relps", "relm", "relms" >>
-F3Idx(kind, d) == IF kind \in {"gtxn", "gtxns"} THEN << 0, 1, 2, 15 >>[1 + d] ELSE << 1, 2, 1, 2 >>[1 + d]
+F3Kinds  == << "gtxn", "gtxns", "self", "relp", "relps", "relm", "relms", "swabs", "swrel" >>
+AbsKinds == {"gtxn", "gtxns", "swabs", "swrel"}
+F3Idx(kind, d) == IF kind \in AbsKinds THEN << 0, 1, 2, 15 >>[1 + d] ELSE << 1, 2, 1, 2 >>[1 + d]
 F3Guards == << "none", "size_eq", "size_le", "index_eq", "size_and_index", "index_ne" >>
 GuardSeq(g, i) ==
     CASE g = "none"     -> << >>
@@ -289,7 +309,7 @@ F3Case(fam, k, d) ==
         cmp2 == MkCmp(ref2, d[4], "L", 1 + d[6], 0)
         r1   == Hole1Region(j)
         r2   == Hole2Region(j)
-        K1   == GuardSeq(g, IF kind \in {"gtxn", "gtxns"} THEN i ELSE 1) \o Stmt(cmp, cons, "a", r1)
+        K1   == GuardSeq(g, IF kind \in AbsKinds THEN i ELSE 1) \o Stmt(cmp, cons, "a", r1)
                 \o (IF d[10] = 1 THEN Stmt(cmp2, cons, "c", r1) ELSE << >>)
         K2   == Stmt(cmp, cons, "b", r2)
         tm   == IF r1 = "m" \/ (SkelUsesK2(j) /\ r2 = "m") THEN FailTail(cons, "m") ELSE << >>
@@ -302,11 +322,11 @@ F3Case(fam, k, d) ==
                    cons |-> cons, skel |-> j, app |-> app, ver |-> ver],
          prog |-> << Pragma(ver) >> \o body]
 
-F3Radix == << 7, 7, 4, 6, 2, 6, 6, 6, NSkel, 2, 2 >>
+F3Radix == << 7, 9, 4, 6, 2, 6, 6, 6, NSkel, 2, 2 >>
 F3Random(k) == F3Case("f3", k, [i \in 1..Len(F3Radix) |-> Rnd(k, 3, i, F3Radix[i])])
 F3SentinelDigits ==
-    { << f, kd, ix, 0, 0, 0, g, 0, 0, 0, 0 >> : f \in 0..2, kd \in 0..6, ix \in 0..1, g \in 0..5 }
-    \cup { << 1, kd, 0, 3, s, 1, g, 0, 0, 0, 0 >> : kd \in 0..6, s \in 0..1, g \in {0, 4} }
+    { << f, kd, ix, 0, 0, 0, g, 0, 0, 0, 0 >> : f \in 0..2, kd \in 0..8, ix \in 0..1, g \in 0..5 }
+    \cup { << 1, kd, 0, 3, s, 1, g, 0, 0, 0, 0 >> : kd \in 0..8, s \in 0..1, g \in {0, 4} }
     \* absolute-index reads only inside a loop body / only in a callee (group-size-check)
     \cup { << 0, kd, 0, 0, 0, 0, 0, 0, j, 0, 0 >> : kd \in 0..1, j \in {7, 8, 9, 10, 16} }
 
